@@ -67,8 +67,18 @@ def np_radians(x, args, kwargs, st, n):
 
 def linalg_norm(x, args, kwargs, st, n):
     d = data_of(x, st, args[0], n)
+    cs = [x.concrete(c) for c in d]
+    if all(c is not None for c in cs):
+        from fractions import Fraction
+        import math
+        tot = sum(Fraction(c) ** 2 for c in cs)
+        rn, rd = math.isqrt(tot.numerator), math.isqrt(tot.denominator)
+        if rn * rn == tot.numerator and rd * rd == tot.denominator:          # exact rational norm of a concrete vector
+            if hasattr(x, "ghost"): x.ghost["norm"] = z3.Q(rn, rd)
+            return fin(z3.Q(rn, rd))
     r = fresh("norm", z3.RealSort())
     x.assume.append(AND(r >= 0, r * r == z3.Sum([c.val * c.val for c in d])))
+    if hasattr(x, "ghost"): x.ghost["norm"] = r
     return fin(r)
 
 
